@@ -6,6 +6,8 @@ set -uo pipefail
 cd "$(dirname "$0")"
 BOUND=${1:-3}
 export CARGO_NET_OFFLINE=true RUST_BACKTRACE=0
+LT=${VERIF_LOOM_TARGET:-/verif/target-loom}
+export CARGO_TARGET_DIR="$LT"
 python3 gen_flag.py >/dev/null || exit 2
 if ! cargo build --release --offline >/tmp/loomleg-build.$$ 2>&1; then
   grep -E "^error" -A6 /tmp/loomleg-build.$$ | head -30 >&2; rm -f /tmp/loomleg-build.$$; exit 2
@@ -13,7 +15,7 @@ fi
 rm -f /tmp/loomleg-build.$$
 rc=0
 for b in one-waiter two-waiters tickets-share-gone ticket-done-and-gone; do
-  out=$(timeout -s KILL 300 /verif/target-loom/release/loomleg "$b" "$BOUND" 2>&1)
+  out=$(timeout -s KILL 300 "$LT/release/loomleg" "$b" "$BOUND" 2>&1)
   if echo "$out" | grep -q "^LOOM-OK"; then
     n=$(echo "$out" | grep "^LOOM-OK" | sed 's/.*interleavings=//')
     echo "LOOM body=$b ok=true interleavings=$n"
